@@ -108,6 +108,7 @@ func (s *evalState) push() {
 func (s *evalState) pop() []string {
 	last := len(s.resolved) - 1
 	deps := s.resolved[last]
+	verifDeps("evalState.pop", len(deps))
 	s.resolved = s.resolved[:last]
 	s.add(deps...) // the enclosing value depends on them as well
 	return deps
